@@ -34,6 +34,10 @@ def concrete(kind, rnd):
     if kind == "translucent":
         a, b = pairs.near_threshold(rnd, 4.5, (0.0, 0.4))
         return rnd.choice([(f"rgba({a[0]}, {a[1]}, {a[2]}, 0.8)", b), ((a[0], a[1], a[2], 0.6), pairs.hexs(b))])
+    if kind == "extreme":      # text that cannot move further away from its background; label often between the levels
+        g = rnd.randrange(70, 190)
+        a = rnd.choice([(0, 0, 0), (255, 255, 255)])
+        return rnd.choice([(a, (g, g, g)), (pairs.hexs(a), pairs.hexs((g, g, g)))])
     if kind == "hsl":
         a, b = pairs.near_threshold(rnd, 4.5, (0.0, 0.3))
         return (pairs.spell(a, "hslfn", rnd), b)
@@ -85,7 +89,7 @@ def main():
     rep.extra["lists_enumerated_by_tlc"] = len(lists)
     n = 260 if t == "quick" else 7000
     chosen = [l for l in lists if len(l) <= 1] + rnd.sample([l for l in lists if len(l) >= 2], n)
-    kinds = ["pass", "fixable", "between", "unfixable", "badtext", "badbg", "translucent", "hsl"]
+    kinds = ["pass", "fixable", "between", "unfixable", "badtext", "badbg", "translucent", "hsl", "extreme"]
     for _ in range(30 if t == "quick" else 600):     # longer lists
         chosen.append(tuple((rnd.choice(kinds), rnd.choice((2, 3, 4))) for _ in range(rnd.randrange(4, 13))))
     jobs = [(l, k % 3, bool((k // 3) & 1), rnd.randrange(1 << 30)) for k, l in enumerate(chosen)]
